@@ -35,6 +35,8 @@ def _prune_texts(spec):
         for o in ops:
             if "text" in o:
                 used.add(o["text"])
+    paths = {o["path"] for _, ops in model.spec_clients(spec) for o in ops if o["op"] in ("read_file", "fs_write")}
+    spec["files"] = {p: t for p, t in spec["files"].items() if p in paths}
     used.update(spec["files"].values())
     spec["texts"] = {k: v for k, v in spec["texts"].items() if k in used}
 
